@@ -50,6 +50,9 @@ type trConf struct {
 	foldLoops bool
 	// atEnd: what a function without results stands for when it runs to its end
 	atEnd string
+	// must: statements (source text, also listed in `skip`) the function has to contain — a guard the theorems lean on,
+	// e.g. the deferred `recover`; without it the function counts as untranslatable
+	must []string
 }
 
 var trConfs = []trConf{
@@ -446,6 +449,7 @@ var trConfs = []trConf{
 		params:    []trParam{{"height", "Int"}, {"chains", "List Nat"}, {"everythingFails", "Bool"}},
 		init:      []string{"let mut phases : List String := []"},
 		elemTypes: map[string]string{"chains": "Nat"},
+		must:      []string{"defer func() { if r := recover(); r != nil { logger.WithFields(\"original-error\", r).Warn(\"Recovered panic.\") } }()"},
 		atoms:     map[string]string{"err != nil": "everythingFails", "sdkCtx.BlockHeight()": "height", "chains": "chains"},
 		skip: []string{"sdkCtx := sdk.UnwrapSDKContext(ctx)", "logger := liblog.FromKeeper(ctx, k).WithComponent(\"skyway-endblocker\")",
 			"defer func() { if r := recover(); r != nil { logger.WithFields(\"original-error\", r).Warn(\"Recovered panic.\") } }()",
@@ -469,6 +473,30 @@ var trConfs = []trConf{
 			"err := am.scheduleReferenceBlocks(sdkCtx)":                    {"phases := phases ++ [\"reference blocks\"]"},
 			"err := am.keeper.PurgeStaleUserSmartContracts(ctx)":           {"phases := phases ++ [\"stale user contracts\"]"}},
 		returns: map[string]string{"return nil": ".returned phases"}},
+	{key: "x/skyway.AppModule.EndBlock", lean: "skywayModuleEndBlock", ret: "EndBlockOutcome",
+		params: []trParam{},
+		init:   []string{"let mut phases : List String := []"},
+		skip: []string{"sdkCtx := sdk.UnwrapSDKContext(ctx)",
+			"defer func() { if r := recover(); r != nil { am.keeper.Logger(ctx).Error(fmt.Sprintf(\"panic in EndBlock: %v\", r)) } }()"},
+		must:    []string{"defer func() { if r := recover(); r != nil { am.keeper.Logger(ctx).Error(fmt.Sprintf(\"panic in EndBlock: %v\", r)) } }()"},
+		stmts:   map[string][]string{"EndBlocker(sdkCtx, am.keeper, am.consensusChecker)": {"phases := phases ++ [\"bridge end blocker, under the module's own recover\"]"}},
+		returns: map[string]string{"return nil": ".returned phases"}},
+	{key: "x/paloma.AppModule.EndBlock", lean: "palomaEndBlock", ret: "EndBlockOutcome",
+		params: []trParam{{"height", "Int"}, {"everythingFails", "Bool"}},
+		init:   []string{"let mut phases : List String := []"},
+		atoms:  map[string]string{"err != nil": "everythingFails", "sdkCtx.BlockHeight()": "height"},
+		skip:   []string{"sdkCtx := sdk.UnwrapSDKContext(ctx)"},
+		stmts:  map[string][]string{"err := am.keeper.JailValidatorsWithMissingExternalChainInfos(sdkCtx)": {"phases := phases ++ [\"jail validators without chain accounts\"]"}},
+		returns: map[string]string{"return nil": ".returned phases"}},
+	{key: "x/metrix.AppModule.EndBlock", lean: "metrixEndBlock", ret: "EndBlockOutcome",
+		params: []trParam{{"height", "Int"}},
+		init:   []string{"let mut phases : List String := []"},
+		atoms:  map[string]string{"sdkCtx.BlockHeight()": "height"},
+		skip:   []string{"sdkCtx := sdk.UnwrapSDKContext(ctx)"},
+		stmts: map[string][]string{"am.keeper.PurgeRelayMetrics(ctx)": {"phases := phases ++ [\"purge relay metrics\"]"},
+			"am.keeper.UpdateRelayMetrics(ctx)": {"phases := phases ++ [\"update relay metrics\"]"},
+			"am.keeper.UpdateUptime(ctx)":       {"phases := phases ++ [\"update uptime\"]"}},
+		returns: map[string]string{"return nil": ".returned phases"}},
 	{key: "x/metrix/keeper.calculateUptime", lean: "calculateUptimeGuard", ret: "Bool",
 		params: []trParam{{"window", "Int"}, {"missed", "Int"}},
 		// only the guard is arithmetic; the division goes through big.Float (modelled in C14's score arithmetic)
@@ -477,6 +505,7 @@ var trConfs = []trConf{
 }
 
 type trCtx struct {
+	seen    map[string]bool // skipped statements met
 	foldVar string // inside a loop emitted as a fold: the accumulator (a `continue` returns it)
 	w    *world
 	fi   *funcInfo
@@ -874,6 +903,10 @@ func (c *trCtx) block(stmts []ast.Stmt, ind string, out *[]string) {
 			// a declaration is printed with its doc comment in front
 			if s == text || (strings.HasPrefix(text, "//") && strings.HasSuffix(text, " "+s)) {
 				skipped = true
+				if c.seen == nil {
+					c.seen = map[string]bool{}
+				}
+				c.seen[s] = true
 			}
 		}
 		if skipped {
@@ -1376,6 +1409,11 @@ func genTranslated(w *world) {
 		c.block(fi.decl.Body.List, "  ", &lines)
 		if conf.atEnd != "" {
 			lines = append(lines, "  return "+conf.atEnd)
+		}
+		for _, m := range conf.must {
+			if !c.seen[m] {
+				c.fail("required statement missing: %s", m)
+			}
 		}
 		if c.err != "" {
 			status = append(status, fmt.Sprintf("  (%s, %s)", leanStr(conf.key), leanStr("untranslatable: "+c.err)))
